@@ -53,3 +53,26 @@ def gen_records(rng, n, fields=('a', 'b', 'c'), missing=0.2, domain=None):
         o['id'] = i
         out.append(o)
     return out
+
+
+def struct_field_names():
+    """identifiers that are field names of struct types in the implementation's own source: a path
+    step with such a name on a function value reaches Go struct fields (functions are structs)."""
+    import re, glob
+    names = set()
+    for f in glob.glob('/repo/*.go') + glob.glob('/repo/jtypes/*.go') + glob.glob('/repo/jparse/*.go'):
+        if f.endswith('_test.go'):
+            continue
+        try:
+            src = open(f, encoding='utf-8').read()
+        except Exception:
+            continue
+        for m in re.finditer(r'type\s+\w+\s+struct\s*\{(.*?)\n\}', src, re.S):
+            for line in m.group(1).split('\n'):
+                line = line.split('//')[0].strip()
+                mm = re.match(r'([A-Za-z_]\w*(?:\s*,\s*[A-Za-z_]\w*)*)\s+\S', line)
+                if mm:
+                    names.update(x.strip() for x in mm.group(1).split(','))
+                elif re.fullmatch(r'\*?[A-Za-z_][\w.]*', line) and line:
+                    names.add(line.lstrip('*').split('.')[-1])
+    return sorted(names)
